@@ -609,6 +609,34 @@ class FactBase:
         except Broken:
             return None
 
+    def payload_buffers(self):
+        """Qualified names and plain names of the byte-vector member that holds a payload's bytes
+        (the std::vector<uint8_t> field of ASAM::CMP::Payload and of TECMP::Payload), found by type."""
+        if getattr(self, "_pbuf", None) is None:
+            q, n = set(), set()
+            for rec in ("ASAM::CMP::Payload", "TECMP::Payload"):
+                r = self.records.get(rec)
+                if r is None:
+                    continue
+                fs = [f for f in r["fields"] if f["t"]["s"].startswith("std::vector<unsigned char")]
+                if len(fs) != 1:
+                    raise Broken("%s: expected exactly one byte-vector member (the payload buffer), found %d" % (rec, len(fs)))
+                q.add(fs[0]["qname"])
+                n.add(fs[0]["name"])
+            if not q:
+                raise Broken("payload buffer member not found")
+            self._pbuf = (q, n)
+        return self._pbuf
+
+    def is_payload_buffer(self, node):
+        """node is a member expression naming the payload buffer of this / another payload object"""
+        node = strip_all_casts(node) if isinstance(node, dict) else {}
+        return node.get("k") == "member" and (node.get("field") in self.payload_buffers()[0] or
+                                              (node.get("field") is None and node.get("name") in self.payload_buffers()[1]))
+
+    def mentions_payload_buffer(self, text):
+        return any(("->" + n) in text or ("." + n) in text or text.startswith(n) for n in self.payload_buffers()[1])
+
     def record(self, name):
         r = self.records.get(name)
         if r is None:
